@@ -1,6 +1,6 @@
 """C15 - the dodecahedron projection is invertible and maps each face onto its pentagon."""
 import math
-from .. import core, geo
+from .. import core, gen, geo
 from .C12 import inside
 
 LEVEL = "proof"
@@ -79,6 +79,10 @@ def run(run):
     for v in pts:
         ds = sorted(((geo.dot(v, c), i) for i, c in enumerate(centres)), reverse=True)
         th, ph = sph(v)
+        if rng.random() < 0.1:
+            # the same direction given with the azimuth many whole turns away; the reference point is that of the ROUNDED azimuth
+            th = th + gen.turns(rng) * 2 * math.pi
+            v = cart(th, ph)
         reqs.append(f"dodeca_forward {geo.hx(th)} {geo.hx(ph)} {ds[0][1]}"); meta.append((v, "nearest", ds[0][0] - ds[1][0]))
         reqs.append(f"dodeca_forward {geo.hx(th)} {geo.hx(ph)} {ds[1][1]}"); meta.append((v, "second", ds[0][0] - ds[1][0]))
     impl, model = core.both(run, reqs, "dodeca_forward")
